@@ -87,6 +87,21 @@ impl<'a> Chooser for BytesChooser<'a> {
     }
 }
 
+/// Never preempts: threads run one after another (thread 0 first); a waiting thread yields to the lowest
+/// runnable one. Sequential histories with logical hang detection.
+pub struct NoSwitchChooser;
+
+impl Chooser for NoSwitchChooser {
+    fn choose(&mut self, cur_ok: bool, others: &[usize]) -> Option<usize> {
+        if cur_ok || others.is_empty() {
+            None
+        } else {
+            let (i, _) = others.iter().enumerate().min_by_key(|(_, t)| **t).expect("non-empty");
+            Some(i)
+        }
+    }
+}
+
 /// Depth-first enumeration of all schedules with at most `max_preempt` preemptions.
 pub struct DfsChooser {
     /// (chosen option, number of options) per choice point
@@ -484,7 +499,9 @@ impl<'c, 'k> Body for SchedBody<'c, 'k> {
                 }));
             }
             let clone_hook = || {
-                hooks::yield_pt();
+                if hooks::clone_yields() {
+                    hooks::yield_pt();
+                }
                 hooks::fault_point(crate::case::FaultSite::Clone);
             };
             with_monitor(sp, || {
@@ -666,6 +683,14 @@ pub fn run_sched_with(case: &Case, chooser: &mut dyn Chooser, unmodelled: bool) 
         },
     );
     crate::seq::finish(case, p, intact)
+}
+
+/// Executes the threads of the case one after another on the schedule engine (no preemption).
+pub fn run_seq_e1(case: &Case) -> crate::history::History {
+    let mut ch = NoSwitchChooser;
+    let mut h = run_sched_with(case, &mut ch, unmodelled_sync());
+    h.sched.sequential = true;
+    h
 }
 
 /// Executes the case under its own schedule bytes.
